@@ -156,6 +156,59 @@ theorem Shorten_agrees (m : account.Mapping) (ext1 : List String → account.Acc
             · rename_i hc; simp at hc; omega
             · exact congrArg GoSem.Outcome.ok hres
 
+/-- the mapper that `Shorten` returns as a PURE function on ANY Go account (its name and its segments need not belong together):
+the closure never panics — the guards keep every slice inside its bounds -/
+def shortenF (m : List MapRule) (getPath : List String → account.Account) (a : account.Account) : account.Account :=
+  match mappingLevel m a.name with
+  | none => a
+  | some (level, suffix) =>
+    if level = 0 then GoZero.zero
+    else if suffix ≥ a.segments.length then a
+    else if level > a.segments.length - suffix then a
+    else getPath (a.segments.take level ++ a.segments.drop (a.segments.length - suffix))
+
+/-- **`account.Shorten` is total**: on every Go account the mapper it returns answers `shortenF`, never a panic -/
+theorem Shorten_total (m : account.Mapping) (ext1 : List String → account.Account) (hm : ∀ r ∈ m, RuleOK r) :
+    ∃ f, account.Shorten m ext1 = .ok (some f) ∧ ∀ a : account.Account, f a = .ok (shortenF (m.map ruleOf) ext1 a) := by
+  unfold account.Shorten
+  by_cases h0 : len m = 0
+  · have : m = [] := by cases m with | nil => rfl | cons _ _ => simp [len] at h0; omega
+    subst this
+    refine ⟨_, by simp; rfl, ?_⟩
+    intro a
+    simp [mapper.Identity, shortenF, mappingLevel]
+  · simp only [h0, decide_false, Bool.false_eq_true, if_false]
+    refine ⟨_, rfl, ?_⟩
+    intro a
+    rw [Mapping_Level_agrees m a.name hm]
+    unfold shortenF
+    cases hl : mappingLevel (m.map ruleOf) a.name with
+    | none => simp [Outcome.bind, levelGo]
+    | some p =>
+      obtain ⟨l, sf⟩ := p
+      simp only [Outcome.bind, levelGo, account.Account.Level, account.Account.Segments, len]
+      by_cases hl0 : l = 0
+      · subst hl0; simp
+      · have hl0' : ¬ ((l : Int) = 0) := by omega
+        by_cases hsf : sf ≥ a.segments.length
+        · have : (sf : Int) ≥ (a.segments.length : Int) := by omega
+          simp [hl0, hsf, this]
+        · have hsf' : ¬ ((sf : Int) ≥ (a.segments.length : Int)) := by omega
+          by_cases hgt : l > a.segments.length - sf
+          · have : (l : Int) > (a.segments.length : Int) - (sf : Int) := by omega
+            simp [hl0, hsf, hsf', hgt, this]
+          · have hsplit : (a.segments.length : Int) - (sf : Int) = ((a.segments.length - sf : Nat) : Int) := by omega
+            have h1 : a.segments.length - sf ≤ a.segments.length := by omega
+            have h2 : l ≤ (a.segments.take (a.segments.length - sf)).length := by simp [List.length_take]; omega
+            have hd := slice_drop a.segments (a.segments.length - sf) h1
+            simp only [len] at hd
+            simp only [hl0, hl0', hsf, hsf', hgt, decide_false, Bool.false_eq_true, if_false, Bool.not_true,
+              hsplit, slice_take _ _ h1, hd, slice_take _ _ h2, List.nil_append]
+            rw [List.take_take, Nat.min_eq_left (by omega)]
+            split
+            · rename_i hc; simp at hc; omega
+            · rfl
+
 theorem wf_segments {a : Knut.Account} (h : a.wf = true) :
     ∃ s rest, a.segments = s :: rest ∧ (AccountType.ofName s).isSome = true := by
   obtain ⟨segs⟩ := a
